@@ -157,8 +157,11 @@ RefPlain(h, n, fuel) ==
     ELSE IF h[n].k = "q" THEN
         LET r == RefSeq(h, h[n].c, 1, <<"plain">>, <<>>, fuel) IN
         IF r[1] = "ERR" THEN RERR ELSE RV(<<"list", r[2]>>)
-    ELSE LET r == RefPairs(h, h[n].c, 1, <<"plain">>, <<>>, fuel) IN
-         IF r[1] = "ERR" THEN RERR ELSE RV(<<"dict", r[2]>>)
+    ELSE LET fk == IF HasMergeKey(h, n) THEN FlatKids(h, n, fuel) ELSE h[n].c IN
+         \* plain data below Any: merge keys are resolved as PyYAML does
+         IF fk = BadMerge THEN RERR
+         ELSE LET r == RefPairs(h, fk, 1, <<"plain">>, <<>>, fuel) IN
+              IF r[1] = "ERR" THEN RERR ELSE RV(<<"dict", r[2]>>)
 
 \* apply the savorize functions of the registered ancestors and of the class
 RefSavorize(h, n, chain, i) ==
